@@ -76,6 +76,53 @@ pub fn check_case(ctx: &Ctx, tape: &[u8], cfg: &Cfg, stats: &mut Stats) -> Resul
             }
         }
     }
+    // token-level renaming: binders take names found outside their scope (type names of their own annotation,
+    // package names, other binders' names)
+    if let Some(base) = &baseline {
+        let names = print::Names::unique(&g.prog);
+        let style = Style::default();
+        let mut pr = print::Printer::new(&g.prog, &names, &style);
+        pr.scopes = true;
+        pr.program();
+        let mut st = Tape::new(if tape.len() > 24 { &tape[tape.len() - 24..] } else { tape });
+        let (renamed, own_site) = naming::rename_tokens(&mut pr.out, &names.binder, &mut st, 8);
+        if renamed > 0 {
+            let text = format!("{}{}", print::prelude(&ctx.repo_root), print::join(&pr.out));
+            stats.eval();
+            let (_s, analyzed) = h::write_and_analyze(&dir, &text);
+            let case = |extra: Value| h::render_case(&text, &g.stdin, json!({"naming": "token-level", "binders_renamed": renamed, "named_after_own_binding_site": own_site, "info": extra}));
+            let observed = match analyzed {
+                | Analyzed::Panic(p) => return Err(Fail::new(format!("analysis-{}", p.signature()), "analysis to return", p.describe()).with(case(json!({})))),
+                | Analyzed::Executable(exe, _) => {
+                    let run = h::interp_run(exe, &g.stdin, 3_000_000);
+                    if matches!(run.end, RunEnd::OutOfFuel) {
+                        stats.inconclusive += 1;
+                        return Ok(());
+                    }
+                    (true, run.stdout, format!("{:?}", run.end))
+                }
+                | Analyzed::NotAccepted(front) => (false, vec![], format!("rejected: {:?}", front.kinds.iter().take(2).collect::<Vec<_>>())),
+                | Analyzed::AcceptedOther(_, why) => (false, vec![], why),
+            };
+            if base.0 != observed.0 {
+                return Err(Fail::new("renaming-changes-acceptance", "the same accept verdict as under unique names (accepted)", observed.2.clone()).with(case(json!({}))));
+            }
+            if base.1 != observed.1 || base.2 != observed.2 {
+                return Err(Fail::new(
+                    "renaming-changes-behaviour",
+                    format!("unique names: {} stdout={:?}", base.2, String::from_utf8_lossy(&base.1)),
+                    format!("token-level renaming: {} stdout={:?}", observed.2, String::from_utf8_lossy(&observed.1)),
+                )
+                .with(case(json!({}))));
+            }
+            stats.count("agree:TokenLevel");
+            stats.add("token-level:binders-renamed", renamed as u64);
+            stats.add("token-level:named-after-own-binding-site", own_site as u64);
+            if own_site > 0 {
+                stats.nontrivial(hash_of(&text));
+            }
+        }
+    }
     // and the common behaviour is the reference behaviour
     if let Some(base) = baseline {
         let ref_desc = match &reference.end {
